@@ -654,7 +654,12 @@ pub fn suite_unit(ctx: &mut Ctx, which: &str) {
             3 if on("ucompact") => {
                 let fam = [gen::Family::HeavyRepeats, gen::Family::Periodic, gen::Family::SmallAlphabet, gen::Family::NearIdentical][rng.below(4)];
                 let sz = 2 + rng.below(20);
-                let (old, new) = gen::gen_pair(&mut rng, fam, sz);
+                let (mut old, mut new) = gen::gen_pair(&mut rng, fam, sz);
+                if i % 28 == 3 {
+                    // one long run of changes between two shared items (dozens of single delete / insert ops in a row)
+                    old = std::iter::once(1).chain((0..rng.range(12, 40) as u32).map(|x| 100 + x)).chain(std::iter::once(2)).collect();
+                    new = std::iter::once(1).chain((0..rng.range(12, 40) as u32).map(|x| 300 + x)).chain(std::iter::once(2)).collect();
+                }
                 let s = random_script(&mut rng, &old, &new);
                 script_cases(ctx, &old, &new, &s);
             }
